@@ -341,6 +341,74 @@ theorem scanMap_some {cfg : Cfg} {now : Nat} {req : Option Req} {st : St} {hdr :
       refine ⟨ent :: pre, e, post, by rw [hl]; rfl, ?_⟩
       simpa [scanMap] using hj
 
+/-- (2') the handler invocation log of a record that completes an earlier POST (`body`): what the body carried
+reaches only the session the POST was admitted to — the one booked for the request `u<n>` in the history's reading
+(`pend`) — and a POST that was never booked reaches no handler -/
+def PBodyLog (pend : List (Tag × Name)) (n : Nat) (log : List LogEnt) : LogClause → Prop
+  | .misrouted => ∀ t nm, pend.find? (·.1 == Tag.u n) = some (t, nm) → ∀ l ∈ log, l.sess = nm
+  | .noRequest => pend.find? (·.1 == Tag.u n) = none → log = []
+  | _ => True
+
+theorem sound_chkBodyLog {pend : List (Tag × Name)} {n : Nat} {log : List LogEnt} {c : LogClause}
+    (h : chkBodyLog pend n log = some c) : ¬ PBodyLog pend n log c := by
+  intro hp
+  unfold chkBodyLog at h
+  cases hf : pend.find? (·.1 == Tag.u n) with
+  | none =>
+    rw [hf] at h
+    simp only [] at h
+    split at h
+    · cases h
+      have := hp hf
+      simp_all
+    · cases h
+  | some x =>
+    obtain ⟨t, nm⟩ := x
+    rw [hf] at h
+    simp only [] at h
+    obtain ⟨pre, a, post, hl, hfa, _⟩ := firstSome_some h
+    split at hfa
+    · cases hfa
+      have := hp t nm hf a (by rw [hl]; simp)
+      simp_all
+    · cases hfa
+
+/-- the log clause of one record: of the operation's own request, or of the POST whose body is now complete -/
+def PLogOp (cfg : Cfg) (pend : List (Tag × Name)) (op : Op) (st : St) (log : List LogEnt) (c : LogClause) : Prop :=
+  match op with
+  | .body n _ => PBodyLog pend n log c
+  | _ => PLog cfg op.req st log c
+
+/-- a request is judged by its answer once it has one: a POST of which only the headers have arrived (`postb`) and
+that is still `pending` is not -/
+def Answered (op : Op) (st : St) : Prop := ∀ ref u, op = .postb ref u → st ≠ .pending
+
+/-- (6) C05 "Close … returns, the session is removed …, shutdown leaves no … timer behind" ∩ C11 "closed and
+forgotten", on one snapshot: every session of the handler's table whose `Close` has begun has a handler that is still
+running (else the close has completed and the session is gone); no session that has left the table has an armed
+idle timer. -/
+def PClose (map : List MapEnt) (stale : List Name) : CloseClause → Prop
+  | .stuck _ => ∀ e ∈ map, e.closing = true → e.busy ≠ 0
+  | .timerLeft _ => stale = []
+
+theorem sound_chkClose {map : List MapEnt} {stale : List Name} {c : CloseClause}
+    (h : chkClose map stale = some c) : ¬ PClose map stale c := by
+  intro hp
+  unfold chkClose at h
+  rcases firstViol_some h with h1 | ⟨_, h1⟩
+  · obtain ⟨pre, a, post, hl, hfa, _⟩ := firstSome_some h1
+    split at hfa
+    · rename_i hc
+      cases hfa
+      simp only [Bool.and_eq_true, beq_iff_eq] at hc
+      exact hp a (by rw [hl]; simp) hc.1 hc.2
+    · cases hfa
+  · obtain ⟨pre, a, post, hl, hfa, _⟩ := firstSome_some h1
+    cases hfa
+    simp only [PClose] at hp
+    rw [hp] at hl
+    cases pre <;> cases hl
+
 /-- the end-of-case record -/
 def PEnd (o : Option EndObs) : Prop := o = some { stuck := 0, map := 0, srv := 0 }
 
@@ -356,9 +424,9 @@ theorem sound_monEnd {m : Mon} {o : Option EndObs} {c : EndClause} (h : monEnd m
 record of the trace, with the history before the record read as `Abs` does.  (A clause wrapped as "F20 …; then c"
 stands for `c`.) -/
 def P_of (cfg : Cfg) : Clause → Trace → Prop
-  | .ans c, tr => ∀ pre op o post r, tr = pre ++ (op, o) :: post → op.req = some r →
+  | .ans c, tr => ∀ pre op o post r, tr = pre ++ (op, o) :: post → op.req = some r → Answered op o.status →
       PAns cfg (faultsAt cfg pre) (tableAt cfg pre op) r o.status c
-  | .log c, tr => ∀ pre op o post, tr = pre ++ (op, o) :: post → PLog cfg op.req o.status o.log c
+  | .log c, tr => ∀ pre op o post, tr = pre ++ (op, o) :: post → PLogOp cfg (Abs cfg pre).pend op o.status o.log c
   | .mint c, tr => ∀ pre op o post, tr = pre ++ (op, o) :: post → PMint cfg (tableAt cfg pre op) op.req o.status o.hdr c
   | .tbl c, tr => ∀ pre op o post seen ent rest, tr = pre ++ (op, o) :: post → o.map = seen ++ ent :: rest →
       PTbl cfg op.req o.status o.hdr (scannedAt cfg pre op o seen) ent c
@@ -366,6 +434,7 @@ def P_of (cfg : Cfg) : Clause → Trace → Prop
   | .gone c, tr => ∀ pre op o post, tr = pre ++ (op, o) :: post →
       PGone (o.map.map (·.name)) (scannedAt cfg pre op o o.map) c
   | .srv c, tr => ∀ pre op o post, tr = pre ++ (op, o) :: post → PSrv cfg (o.map.map (·.name)) o.srv c
+  | .close c, tr => ∀ pre op o post, tr = pre ++ (op, o) :: post → PClose o.map o.stale c
   | .noId, tr => ∀ pre op o post, tr = pre ++ (op, o) :: post → PNoId cfg op.req o.status o.hdr
   | .zombieThen c, tr => P_of cfg c tr
 
@@ -377,14 +446,15 @@ def rawViol (cfg : Cfg) (m : Mon) (op : Op) (o : Obs) : Option Clause :=
   let bs := bookSlots ba.1 ba.2 m.run op o.status
   let bd := bookDone now bs.1 ba.2 o.done
   let sm := scanMap cfg now op.req o.status o.hdr bd.1 o.map
-  firstViol ((chkAnswerO cfg (effFaults cfg m) tbl0 op.req o.status).map Clause.ans)
-    (firstViol ((chkLog cfg op.req o.status o.log).map Clause.log)
+  firstViol ((chkAnswerOp cfg (effFaults cfg m) tbl0 op o.status).map Clause.ans)
+    (firstViol ((chkLogOp cfg m.pend op o.status o.log).map Clause.log)
       (firstViol ((chkMint cfg tbl0 op.req o.status o.hdr).map Clause.mint)
         (firstViol (sm.2.map Clause.tbl)
           (firstViol ((chkKeys o.map).map Clause.key)
             (firstViol ((chkGone (o.map.map (·.name)) sm.1).map Clause.gone)
               (firstViol ((chkSrv cfg (o.map.map (·.name)) o.srv).map Clause.srv)
-                (if chkNoId cfg op.req o.status o.hdr then some Clause.noId else none)))))))
+                (firstViol (if chkNoId cfg op.req o.status o.hdr then some Clause.noId else none)
+                  ((chkClose o.map o.stale).map Clause.close))))))))
 
 theorem viol_raw {cfg : Cfg} {m : Mon} {op : Op} {o : Obs} {c : Clause} (h : (monStep cfg m op o).viol = some c) :
     ∃ c0, rawViol cfg m op o = some c0 ∧ (c = c0 ∨ c = .zombieThen c0) := by
@@ -420,13 +490,14 @@ theorem rawViol_source {cfg : Cfg} {m : Mon} {op : Op} {o : Obs} {c : Clause} (h
     let bd := bookDone now bs.1 ba.2 o.done
     let sm := scanMap cfg now op.req o.status o.hdr bd.1 o.map
     match c with
-    | .ans x => chkAnswerO cfg (effFaults cfg m) tbl0 op.req o.status = some x
-    | .log x => chkLog cfg op.req o.status o.log = some x
+    | .ans x => chkAnswerOp cfg (effFaults cfg m) tbl0 op o.status = some x
+    | .log x => chkLogOp cfg m.pend op o.status o.log = some x
     | .mint x => chkMint cfg tbl0 op.req o.status o.hdr = some x
     | .tbl x => sm.2 = some x
     | .key x => chkKeys o.map = some x
     | .gone x => chkGone (o.map.map (·.name)) sm.1 = some x
     | .srv x => chkSrv cfg (o.map.map (·.name)) o.srv = some x
+    | .close x => chkClose o.map o.stale = some x
     | .noId => chkNoId cfg op.req o.status o.hdr = true
     | .zombieThen _ => False := by
   intro now tbl0 ba bs bd sm
@@ -446,9 +517,11 @@ theorem rawViol_source {cfg : Cfg} {m : Mon} {op : Op} {o : Obs} {c : Clause} (h
   · obtain ⟨x, hx, rfl⟩ := map_some_inj h1; exact hx
   rcases firstViol_some h with h1 | ⟨_, h⟩
   · obtain ⟨x, hx, rfl⟩ := map_some_inj h1; exact hx
-  split at h
-  · rename_i hn; cases h; exact hn
-  · cases h
+  rcases firstViol_some h with h1 | ⟨_, h⟩
+  · split at h1
+    · rename_i hn; cases h1; exact hn
+    · cases h1
+  · obtain ⟨x, hx, rfl⟩ := map_some_inj h; exact hx
 
 /-- the monitor reports `c` at record `j` of `tr` -/
 theorem runMonFrom_some {cfg : Cfg} {c : Clause} : ∀ {tr : Trace} {m : Mon} {i j : Nat}, runMonFrom cfg m i tr = some (j, c) →
@@ -480,13 +553,32 @@ theorem monitor_sound {cfg : Cfg} {tr : Trace} {j : Nat} {c : Clause} (h : runMo
     cases c0 with
     | ans x =>
       simp only [] at hsrc
+      have hans : Answered op o.status ∧ chkAnswerO cfg (effFaults cfg (monAfter cfg {} pre)) ((monAfter cfg {} pre).tbl.map (expire cfg (nowAfter (monAfter cfg {} pre) op))) op.req o.status = some x := by
+        unfold chkAnswerOp at hsrc
+        split at hsrc
+        · split at hsrc
+          · cases hsrc
+          · rename_i hne
+            refine ⟨?_, hsrc⟩
+            intro ref u hop hst
+            cases hop
+            exact hne (by rw [hst]; rfl)
+        · rename_i hnb
+          refine ⟨?_, hsrc⟩
+          intro ref u hop
+          exact absurd hop (hnb ref u)
+      obtain ⟨hansw, hsrc⟩ := hans
       unfold chkAnswerO at hsrc
       cases hr : op.req with
       | none => rw [hr] at hsrc; cases hsrc
       | some r =>
         rw [hr] at hsrc
-        exact sound_chkAnswer hsrc (hp pre op o post r htr hr)
-    | log x => exact sound_chkLog hsrc (hp pre op o post htr)
+        exact sound_chkAnswer hsrc (hp pre op o post r htr hr hansw)
+    | log x =>
+      simp only [] at hsrc
+      have hpl := hp pre op o post htr
+      cases op <;> simp only [chkLogOp] at hsrc <;> simp only [PLogOp] at hpl <;>
+        first | exact sound_chkBodyLog hsrc hpl | exact sound_chkLog hsrc hpl
     | mint x => exact sound_chkMint hsrc (hp pre op o post htr)
     | tbl x =>
       obtain ⟨seen, ent, rest, hl, hj⟩ := scanMap_some hsrc
@@ -494,6 +586,7 @@ theorem monitor_sound {cfg : Cfg} {tr : Trace} {j : Nat} {c : Clause} (h : runMo
     | key x => exact sound_chkKeys hsrc (hp pre op o post htr)
     | gone x => exact sound_chkGone hsrc (hp pre op o post htr)
     | srv x => exact sound_chkSrv hsrc (hp pre op o post htr)
+    | close x => exact sound_chkClose hsrc (hp pre op o post htr)
     | noId => exact sound_chkNoId hsrc (hp pre op o post htr)
     | zombieThen x => exact hsrc
   rcases hc with rfl | rfl
@@ -745,5 +838,18 @@ def P_srv_tableKeeps (cfg : Cfg) (n : Name) (tr : Trace) : Prop := P_of cfg (.sr
 
 theorem sound_srv_tableKeeps {cfg : Cfg} (n : Name) {tr : Trace} {j : Nat} (h : runMon cfg tr = some (j, (.srv (.tableKeeps n)))) :
     ¬ P_srv_tableKeeps cfg n tr := monitor_sound h
+
+/-- the property clause behind `close.stuck` (C05 ∩ C11): a session whose `Close` has begun and none of whose
+handlers is running is closed and gone from the handler's table -/
+def P_close_stuck (cfg : Cfg) (n : Name) (tr : Trace) : Prop := P_of cfg (.close (.stuck n)) tr
+
+theorem sound_close_stuck {cfg : Cfg} (n : Name) {tr : Trace} {j : Nat} (h : runMon cfg tr = some (j, (.close (.stuck n)))) :
+    ¬ P_close_stuck cfg n tr := monitor_sound h
+
+/-- the property clause behind `close.timerLeft` (C05 ∩ C11): no idle timer of a session that has left the table is armed -/
+def P_close_timerLeft (cfg : Cfg) (n : Name) (tr : Trace) : Prop := P_of cfg (.close (.timerLeft n)) tr
+
+theorem sound_close_timerLeft {cfg : Cfg} (n : Name) {tr : Trace} {j : Nat} (h : runMon cfg tr = some (j, (.close (.timerLeft n)))) :
+    ¬ P_close_timerLeft cfg n tr := monitor_sound h
 
 end Sessions
